@@ -2,6 +2,7 @@ package main
 
 import (
 	"fmt"
+	"sort"
 	"strings"
 
 	"golang.org/x/tools/go/ssa"
@@ -10,7 +11,7 @@ import (
 func init() {
 	register(&propDef{
 		ID: "C14", Level: "other", Run: runC14,
-		Explanation: "Deal is a counting loop in which the card appended in each iteration is Meta.Deck[i] with i equal to Status.CurrentDeckPosition at the loop head, both advancing by exactly one per card, and the cursor is written nowhere else; every store to HoleCards, Board or Burned stores a fresh empty slice, the result of Deal, or the same field extended by the result of Deal; the deck is stored only from the options and from the shuffle of itself; no element of a dealt slice is ever overwritten; the street switch deals HoleCardsCount to every player preflop, burns 1 and adds 3 on the flop, burns 1 and adds 1 on turn and river, with the burn first and no other dealing; nothing else calls Deal or Burn; the shuffle's only writes are the two stores of one exchange inside rand.Shuffle over the whole slice, and it returns the same slice. Does NOT decide that the configured deck has no duplicates and enough cards.",
+		Explanation: "Deal is a counting loop in which the card appended in each iteration is Meta.Deck[i] with i equal to Status.CurrentDeckPosition at the loop head, both advancing by exactly one per card, and the cursor is written nowhere else; every store to HoleCards, Board or Burned stores a fresh empty slice, the result of Deal, or the same field extended by the result of Deal; the deck is stored only from the options and from the shuffle of itself; no element of a dealt slice is ever overwritten; the street switch deals HoleCardsCount to every player preflop, burns 1 and adds 3 on the flop, burns 1 and adds 1 on turn and river, with the burn first and no other dealing; nothing else calls Deal or Burn; the shuffle's only writes are the two stores of one exchange inside rand.Shuffle over the whole slice, and it returns the same slice. Deck sources return a newly allocated slice per call. Does NOT decide that the configured deck has no duplicates and enough cards.",
 		Trusted:     commonTrusted,
 		Assumptions: []string{"math/rand.Shuffle calls the swap function with in-range indices (documented)"},
 		NotCovered:  "deck content (duplicates, length); that the hand reaches each street (C05/C06)",
@@ -160,6 +161,17 @@ func runC14(c *Ctx) {
 
 	// ---- card-provenance: stores to the three card fields and to the deck
 	nSt := 0
+	inHandlers := map[*ssa.Function]bool{}
+	{
+		eg := buildEventGraph(c, c.engine())
+		var hs []*ssa.Function
+		for _, h := range eg.Handler {
+			if h != nil {
+				hs = append(hs, h)
+			}
+		}
+		inHandlers = ix.Reachable(hs...)
+	}
 	for _, key := range cardFields {
 		for _, w := range ix.Writers(key) {
 			if w.Pkg == nil || shortPkg(w.Pkg.Pkg.Path()) != "pokerface" {
@@ -184,13 +196,18 @@ func runC14(c *Ctx) {
 						okv := isEmptyVal(v) ||
 							(v.K == KSym && strings.HasPrefix(v.S, dealCall)) ||
 							(v.Op == "append" && len(v.Args) == 2 && v.Args[0].String() == e.Loc && strings.HasPrefix(v.Args[1].String(), dealCall))
+						// emptying a card field is for the start of a hand and for the views only: once a
+						// hand is running (any event handler), dealt cards stay what they are
+						if okv && isEmptyVal(v) && inHandlers[w] {
+							okv = false
+						}
 						k := fnKey(w) + "#store:" + key + ":" + fmt.Sprint(okv)
 						if seen[k] {
 							continue
 						}
 						seen[k] = true
 						nSt++
-						c.check(okv, "card-provenance", fnKey(w)+"#store:"+strings.TrimPrefix(key, "pokerface."), e.Pos, "stores an empty slice, Deal(...) or the field extended by Deal(...)", "stores "+v.String()+": cards that do not come fresh from the deck")
+						c.check(okv, "card-provenance", fnKey(w)+"#store:"+strings.TrimPrefix(key, "pokerface."), e.Pos, "stores Deal(...), the field extended by Deal(...), or — at the start of a hand and in the views only — an empty slice", "stores "+v.String()+": dealt cards change or do not come fresh from the deck")
 					}
 				}
 			}
@@ -209,6 +226,42 @@ func runC14(c *Ctx) {
 				c.check(okv, "card-provenance", fnKey(w)+"#store:Meta.Deck", e.Pos, "the deck is set from the options, emptied in a view, or replaced by the shuffle of itself", "the deck is replaced by "+v)
 			}
 		}
+	}
+	// deck sources: a function whose result becomes GameOptions.Deck returns a slice of its own on
+	// every call. The shuffle works in place on the deck it is given, so two hands whose decks share
+	// a backing array re-order each other's undealt cards
+	{
+		srcs := map[*ssa.Function]bool{}
+		for _, fn := range p.Funcs {
+			for _, b := range fn.Blocks {
+				for _, in := range b.Instrs {
+					st, ok := in.(*ssa.Store)
+					if !ok || accessKey(st.Addr) != "pokerface.GameOptions.Deck" {
+						continue
+					}
+					if call, ok := st.Val.(*ssa.Call); ok {
+						if f := call.Common().StaticCallee(); f != nil && inModule(f) {
+							srcs[f] = true
+						}
+					}
+				}
+			}
+		}
+		nSrc := 0
+		for _, f := range sortedFns(srcs) {
+			nSrc++
+			c.touch(fnKey(f))
+			var bad []string
+			for _, b := range f.Blocks {
+				if r, ok := b.Instrs[len(b.Instrs)-1].(*ssa.Return); ok && len(r.Results) == 1 {
+					if why := sliceNotFresh(r.Results[0], map[ssa.Value]bool{}, 0); why != "" {
+						bad = append(bad, why)
+					}
+				}
+			}
+			c.check(len(bad) == 0, "card-provenance", fnKey(f)+"#fresh-deck", p.FnPos(f), "returns a newly allocated slice on every call", "decks of different hands can share one backing array", uniq(bad, 2)...)
+		}
+		c.floor("card-provenance", "deck sources", nSrc, 2)
 	}
 	// no element store into a card slice anywhere
 	{
@@ -466,4 +519,71 @@ func cardSliceSource(v ssa.Value, depth int) string {
 		return cardSliceSource(x.X, depth+1)
 	}
 	return ""
+}
+
+func sortedFns(m map[*ssa.Function]bool) []*ssa.Function {
+	var out []*ssa.Function
+	for f := range m {
+		out = append(out, f)
+	}
+	sort.Slice(out, func(i, j int) bool { return fnKey(out[i]) < fnKey(out[j]) })
+	return out
+}
+
+// sliceNotFresh returns "" when the slice value is backed by an array allocated during this call
+// on every path, and otherwise says what it may share. append onto a zero-capacity or nil slice
+// allocates; append onto anything else may write into the first operand's array.
+func sliceNotFresh(v ssa.Value, seen map[ssa.Value]bool, depth int) string {
+	if seen[v] || depth > 6 {
+		return ""
+	}
+	seen[v] = true
+	switch x := v.(type) {
+	case *ssa.MakeSlice:
+		return ""
+	case *ssa.Const:
+		if x.IsNil() {
+			return ""
+		}
+	case *ssa.Phi:
+		for _, e := range x.Edges {
+			if why := sliceNotFresh(e, seen, depth); why != "" {
+				return why
+			}
+		}
+		return ""
+	case *ssa.Slice:
+		// s[:0:0]: capacity zero, whatever is appended is newly allocated
+		if x.Max != nil {
+			if m, ok := constInt(x.Max); ok && m == 0 {
+				return ""
+			}
+		}
+		if _, isAlloc := x.X.(*ssa.Alloc); isAlloc {
+			return "" // a slice of a fresh array (composite literal)
+		}
+		return sliceNotFresh(x.X, seen, depth)
+	case *ssa.Call:
+		if b, ok := x.Call.Value.(*ssa.Builtin); ok && b.Name() == "append" {
+			return sliceNotFresh(x.Call.Args[0], seen, depth)
+		}
+		if f := x.Call.StaticCallee(); f != nil && inModule(f) && f.Blocks != nil {
+			for _, b := range f.Blocks {
+				if r, ok := b.Instrs[len(b.Instrs)-1].(*ssa.Return); ok && len(r.Results) >= 1 {
+					if why := sliceNotFresh(r.Results[0], seen, depth+1); why != "" {
+						return why
+					}
+				}
+			}
+			return ""
+		}
+		if n := extCalleeName(x.Common()); n == "slices.Clone" {
+			return ""
+		}
+	case *ssa.UnOp:
+		if g, ok := x.X.(*ssa.Global); ok {
+			return "the result can share the array of the package variable " + g.Name()
+		}
+	}
+	return "the result is built on " + v.String() + " (" + fmt.Sprintf("%T", v) + "), which outlives the call"
 }
